@@ -35,18 +35,19 @@ THEOREMS = [
     'C11.cijkl_roundtrip', "C11.cijkl_roundtrip'", 'C11.cij9_roundtrip', 'C11.sijkl_weights',
     'C11.sijkl_roundtrip', "C11.sijkl_roundtrip'", 'C11.stiffness_compliance_identity',
     'C11.transform_is_tensor_rotation', 'C11.transform_id', 'C11.transform_comp', 'C11.transform_inv',
-    'C11.transform_symm', 'C11.energy_invariant', 'C11.voigt_moduli_invariant',
-    'C11.system_invariant_isotropic', 'C11.system_invariant_cubic', 'C11.system_invariant_hexagonal',
-    'C11.system_invariant_tetragonal', 'C11.system_invariant_rhombohedral', 'C11.three_fold_proper',
-    'C11.system_invariant_orthorhombic', 'C11.system_invariant_monoclinic', 'C11.generators_proper',
-    'C11.hexagonal_inputs_agree', 'C11.rhombohedral_inputs_agree', 'C11.iso_range', 'C11.iso_pair_C11_C12',
-    'C11.iso_pair_C11_C44', 'C11.iso_pair_C11_K', 'C11.iso_pair_C12_C44', 'C11.iso_pair_C12_K',
-    'C11.iso_pair_C44_K', 'C11.iso_pair_C11_nu', 'C11.iso_pair_C44_nu', 'C11.iso_pair_E_nu',
-    'C11.iso_pair_nu_K', 'C11.iso_pair_C44_E', 'C11.iso_pair_E_K', 'C11.iso_pair_C12_nu', 'C11.iso_pair_C11_E',
+    'C11.transform_symm', 'C11.energy_invariant', 'C11.voigt_moduli_invariant', 'C11.reuss_moduli_invariant',
+    'C11.hill_moduli_invariant', 'C11.compliance_transforms_as_tensor', 'C11.cij_setter_symm',
+    'C11.setter_roundtrips', 'C11.transform_is_rot', 'C11.system_invariant_isotropic',
+    'C11.system_invariant_cubic', 'C11.system_invariant_hexagonal', 'C11.system_invariant_tetragonal',
+    'C11.system_invariant_rhombohedral', 'C11.three_fold_proper', 'C11.system_invariant_orthorhombic',
+    'C11.system_invariant_monoclinic', 'C11.generators_proper', 'C11.hexagonal_inputs_agree',
+    'C11.rhombohedral_inputs_agree', 'C11.iso_range', 'C11.iso_pair_C11_C12', 'C11.iso_pair_C11_C44',
+    'C11.iso_pair_C11_K', 'C11.iso_pair_C12_C44', 'C11.iso_pair_C12_K', 'C11.iso_pair_C44_K',
+    'C11.iso_pair_C11_nu', 'C11.iso_pair_C44_nu', 'C11.iso_pair_E_nu', 'C11.iso_pair_nu_K',
+    'C11.iso_pair_C44_E', 'C11.iso_pair_E_K', 'C11.iso_pair_C12_nu', 'C11.iso_pair_C11_E',
     'C11.iso_pair_C12_E', 'C11.iso_alias', 'C11.normalized_idem_triclinic', 'C11.normalized_idem_cubic',
     'C11.normalized_idem_hexagonal', 'C11.normalized_idem_tetragonal', 'C11.normalized_idem_rhombohedral',
-    'C11.normalized_idem_orthorhombic', 'C11.normalized_idem_isotropic', 'C11.isclose_self',
-    'C11.is_normal_of_normalized',
+    'C11.normalized_idem_orthorhombic', 'C11.normalized_idem_isotropic', 'C11.is_normal_of_normalized',
 ]
 PARTIAL = {}
 
@@ -997,12 +998,8 @@ def _radicand_dispatch(infos):
     return '\n'.join(T)
 
 
-def _translate_all():
-    src = cm.source(SRC)
-    axes_src = cm.source(AXES_SRC)
-    methods = _class_methods(src)
-    out = {'VoigtTables': _voigt_tables(src, axes_src)}
-    # crystal systems
+def _ctor_all(methods):
+    """symbolic execution of every generated keyword set -> (infos, texts, iso_infos, iso_texts)"""
     infos, texts = [], []
     for ks in _crystal_keysets() + _bad_keysets():
         st, name, text, info = _ctor_def(methods, ks)
@@ -1023,16 +1020,58 @@ def _translate_all():
     if len(canon) != 15 or any(i['status'] != 'ok' for i in canon):
         raise TranslationError('an isotropic modulus pair raises: '
                                + ', '.join(','.join(i['keys']) for i in canon if i['status'] != 'ok'))
+    return infos, texts, iso_infos, iso_texts
+
+
+def _translate_all():
+    src = cm.source(SRC)
+    axes_src = cm.source(AXES_SRC)
+    methods = _class_methods(src)
+    out = {'VoigtTables': _voigt_tables(src, axes_src)}
+    infos, texts, iso_infos, iso_texts = _ctor_all(methods)
     have = {','.join(i['keys']): i for i in infos + iso_infos}
     head = ['/- GENERATED by harness/props/c11.py from atomman/core/ElasticConstants.py — do not edit. -/']
-    out['IsoPairs'] = '\n'.join(head + ['set_option linter.unusedVariables false', 'namespace Atomman.Gen', ''] + iso_texts
-                                + [_dispatch('isoDispatch', iso_infos), _radicand_dispatch(iso_infos),
-                                   'end Atomman.Gen', ''])
+    out['IsoPairs'] = '\n'.join(head + ['set_option linter.unusedVariables false', 'namespace Atomman.Gen', '']
+                                + iso_texts + [_dispatch('isoDispatch', iso_infos), _radicand_dispatch(iso_infos),
+                                               'end Atomman.Gen', ''])
     out['CrystalCij'] = '\n'.join(head + ['import Atomman.Generated.IsoPairs', 'set_option linter.unusedVariables false',
                                           'namespace Atomman.Gen', ''] + texts
                                   + [_dispatch('crystalDispatch', infos), _estimates(methods),
                                      _normalized(methods, have), 'end Atomman.Gen', ''])
     return out, infos, iso_infos
+
+
+def _static_infos():
+    """what the keyword sets are *expected* to do (used by the tie only when the translator no longer applies, so
+    that the run can still exhibit where the implementation differs from the committed model)."""
+    def route(ks):
+        n = len(ks)
+        if n == 2:
+            return 'isotropic'
+        return {3: 'cubic', 5: 'hexagonal', 8: 'rhombohedral', 9: 'orthorhombic', 13: 'monoclinic',
+                21: 'triclinic'}.get(n, 'rhombohedral' if 'C14' in ks else 'tetragonal')
+
+    def mk(ks, status):
+        ks = sorted(ks, key=KEY_ORDER.index)
+        return {'keys': ks, 'status': status, 'route': ['__init__', route(ks)], 'nroots': int('E' in ks and len(ks) == 2
+                and bool({'C11', 'M', 'C12', 'lambda'} & set(ks))), 'name': 'ctor_' + '_'.join(ks), 'via': None,
+                'nasserts': int({'C11', 'C12', 'C66', 'C14'} <= set(ks) and len(ks) <= 8)}
+    infos = [mk(ks, 'ok') for ks in _crystal_keysets()] + [mk(ks, 'TypeError') for ks in _bad_keysets()]
+    same = [{'C11', 'M'}, {'C12', 'lambda'}, {'C44', 'mu'}]
+    iso = [mk(ks, 'TypeError' if ks in same else 'ok') for ks in _iso_keysets()]
+    return infos, iso
+
+
+def _infos():
+    try:
+        _, infos, iso_infos = _translate_all_cached()
+        return infos, iso_infos
+    except TranslationError:
+        try:
+            infos, _, iso_infos, _ = _ctor_all(_class_methods(cm.source(SRC)))
+            return infos, iso_infos
+        except TranslationError:
+            return _static_infos()
 
 
 def translate():
@@ -1271,7 +1310,7 @@ def correspond(ctx):
     EC = am.ElasticConstants
     rng = ctx.rng
     B = _Batch(ctx)
-    _, infos, iso_infos = _translate_all_cached()
+    infos, iso_infos = _infos()
 
     # ---- 1. index probing with the 21 symmetric basis matrices (exact) --------------------------
     for (a, b), M in _basis_matrices():
@@ -1587,6 +1626,14 @@ def _check_tensor_clauses(ctx, ec, info, tag):
             ctx.violate(f'roundtrip:{nm}', f'{tag}: ElasticConstants({nm}=ec.{nm}).Cij != ec.Cij ({e})',
                         {**info, 'op': 'representations'})
     cond = float(np.linalg.cond(c))
+    # getters are pure: a second call returns the same arrays and the stored matrix is untouched
+    for nm in ('Cijkl', 'Cij9', 'Sij', 'Sijkl', 'Cij'):
+        if cond >= 1e6 and nm.startswith('S'):
+            continue
+        a1, a2 = getattr(ec, nm), getattr(ec, nm)
+        if not np.array_equal(a1, a2) or not np.array_equal(ec.Cij, c):
+            ctx.violate(f'getter:impure:{nm}', f'{tag}: two successive reads of .{nm} differ (or change .Cij)',
+                        {**info, 'op': 'representations'})
     if cond < 1e6:
         S4 = ec.Sijkl
         mx = float(np.abs(c).max())
@@ -1629,6 +1676,14 @@ def _check_rotation_clauses(ctx, ec, R, R2, eps, info, tag):
         return
     if not np.array_equal(eid.Cij, c):
         ctx.violate('transform:identity', f'{tag}: transform(identity) changes Cij', rep)
+    if not np.array_equal(ec.Cij, c):
+        ctx.violate('transform:mutates', f'{tag}: transform changes the object it is called on', rep)
+    # axes are directions: positive rescaling of the rows must not matter
+    scal = np.array([[2.0], [0.5], [3.0]])
+    rs, es = _call(lambda: ec.transform(R * scal).Cij)
+    if es is not None or not np.allclose(rs, e1.Cij, rtol=1e-9, atol=_rot_tol(mx)):
+        ctx.violate('transform:axes-scaling', f'{tag}: transform with rescaled axis vectors differs from transform '
+                    f'with the unit axes ({es or np.abs(rs - e1.Cij).max()})', rep)
     if not np.allclose(back.Cij, c, rtol=1e-9, atol=2 * _rot_tol(mx)):
         ctx.violate('transform:inverse', f'{tag}: transform(R) then transform(R^T) does not return the original '
                     f'(max diff {np.abs(back.Cij - c).max():.3e})', rep)
@@ -1747,6 +1802,22 @@ def search(ctx, broken):
             if it == 0:
                 _check_rotation_clauses(ctx, ec, _rand_rotation(rng), _rand_rotation(rng), _rand_strain(rng), info,
                                         sysname)
+            # the alternative input combinations (2*C66 = C11 - C12, optional constants) describe the same tensor
+            if 'C66' not in vals and {'C11', 'C12'} <= set(vals) and sysname != 'cubic':
+                c66 = (vals['C11'] - vals['C12']) / 2
+                alts = [{**{k: v for k, v in vals.items() if k != 'C12'}, 'C66': c66},
+                        {**{k: v for k, v in vals.items() if k != 'C11'}, 'C66': c66}]
+                if sysname.startswith('rhombohedral'):
+                    alts.append({**vals, 'C66': c66})
+                    if 'C15' not in vals:
+                        alts.append({**vals, 'C15': 0.0})
+                for alt in alts:
+                    ctx.stats.case('oracle:alt-inputs', (sysname, tuple(sorted(alt))))
+                    r, e = _call(lambda: EC(**alt).Cij)
+                    if e is not None or not np.allclose(r, c, rtol=1e-12, atol=1e-12 * mx):
+                        d = 'raised ' + e if e else f'max diff {np.abs(r - c).max():.3e}'
+                        ctx.violate(f'alt-inputs:{sysname}', f'ElasticConstants({sorted(alt)}) differs from the same '
+                                    f'tensor given as {sorted(vals)}: {d}', {'op': 'alt', 'kwargs': vals, 'alt': alt})
             # normalising a tensor of the system to that system changes nothing; normalisation is idempotent
             target = sysname.rstrip('6')
             if target != 'monoclinic':
@@ -1835,6 +1906,12 @@ def replay(ctx, payload):
             print('replay', r['system'], r.get('rotation'), 'max diff', np.abs(out - ec.Cij).max())
             if not np.allclose(out, ec.Cij, rtol=1e-9, atol=_rot_tol(float(np.abs(ec.Cij).max()))):
                 ctx.violate(f"invariance:{r['system']}", 'replayed case still fails', r)
+        elif op == 'alt':
+            a = am.ElasticConstants(**r['kwargs']).Cij
+            b, e = _call(lambda: am.ElasticConstants(**r['alt']).Cij)
+            print('replay alt', e or float(np.abs(a - b).max()))
+            if e is not None or not np.allclose(a, b, rtol=1e-12, atol=1e-12 * float(np.abs(a).max())):
+                ctx.violate('alt-inputs:replay', 'replayed case still fails', r)
         elif op == 'iso':
             lam, mu = Fraction(r['lambda']), Fraction(r['mu'])
             want = np.array([[float(x) for x in row] for row in _iso_matrix(lam, mu)])
